@@ -20,13 +20,24 @@ def gen_case(rng):
     pool = caps + free + params + ["x"]
     for _ in range(rng.randint(1, 4)):
         v = rng.choice(pool)
-        k = rng.choice(["plain", "arith", "list", "quoted", "bq", "dotted", "let", "inner", "setq", "setqret", "cond"])
+        k = rng.choice(["plain", "arith", "list", "quoted", "bq", "dotted", "let", "inner", "setq", "setqret", "cond",
+                        "bqdot", "bqnest", "bqdeep", "fnq", "dolist", "mapcar", "andor", "when", "vecq", "dotcall"])
         if k == "plain": uses.append(v)
         elif k == "arith": uses.append("(if (numberp %s) (+ %s 1) %s)" % (v, v, v))
         elif k == "list": uses.append("(list %s (list %s))" % (v, v))
         elif k == "quoted": uses.append("'(%s . %s)" % (v, v))
         elif k == "bq": uses.append("`(%s ,%s ,@(list %s))" % (v, v, v))
         elif k == "dotted": uses.append("(quote (1 . %s))" % v)
+        elif k == "bqdot": uses.append("`(%s . ,%s)" % (v, v))
+        elif k == "bqnest": uses.append("`((,%s) (k . ,%s) ,@(list %s) . ,%s)" % (v, v, v, v))
+        elif k == "bqdeep": uses.append("`(1 (2 (3 ,%s . ,%s)) ,(list %s `(,%s)))" % (v, v, v, v))
+        elif k == "fnq": uses.append("(funcall #'(lambda (w) (list w %s)) %s)" % (v, v))
+        elif k == "dolist": uses.append("(let ((acc nil)) (dolist (e (list %s 1)) (setq acc (cons (list e %s) acc))) acc)" % (v, v))
+        elif k == "mapcar": uses.append("(mapcar (lambda (e) (list e %s)) (list %s))" % (v, v))
+        elif k == "andor": uses.append("(or (and %s (list %s)) %s)" % (v, v, v))
+        elif k == "when": uses.append("(when t (unless nil (if-let ((w %s)) (list w %s) %s)))" % (v, v, v))
+        elif k == "vecq": uses.append("(list '%s `%s `,%s)" % (v, v, v))
+        elif k == "dotcall": uses.append("(cons %s %s)" % (v, v))
         elif k == "let": uses.append("(let ((%s (list 'inner %s))) %s)" % (v, v, v))
         elif k == "inner": uses.append("(funcall (lambda () %s))" % v)
         elif k == "setq": uses.append("(setq %s (if (numberp %s) (+ %s 10) 'set))" % (v, v, v))
